@@ -415,6 +415,20 @@ def gen(repo):
         out.append("(* options the fit routine itself hands to the SVD back-ends, in source order *)")
         out.append("Definition %s_solver_options : list (string * string * string) :=\n  [%s].\n"
                    % (pfx, ";\n   ".join('("%s"%%string, "%s"%%string, "%s"%%string)' % (k, key, val.replace('"', "'")) for k, key, val in opts)))
+        # every statement of the fit routine that binds the data or one of the three factors (first line of each statement, source order):
+        # the factors are what the back-end returned, re-ordered, truncated, labelled and sign-fixed - nothing else touches them
+        names = ("X", "U", "s", "VT", "V")
+        writes = []
+        for st in walk_stmts(fit):
+            tg = []
+            if isinstance(st, ast.Assign):
+                for t in st.targets:
+                    tg += [e.id for e in (t.elts if isinstance(t, ast.Tuple) else [t]) if isinstance(e, ast.Name)]
+            elif isinstance(st, (ast.AugAssign, ast.AnnAssign)) and isinstance(st.target, ast.Name):
+                tg = [st.target.id]
+            if any(t in names for t in tg):
+                writes.append(ast.unparse(st).split("\n")[0][:110])
+        out.append("Definition %s_factor_writes : list string :=\n  [%s].\n" % (pfx, ";\n   ".join('"%s"%%string' % x.replace('"', "'") for x in writes)))
     # sign rule of _svd.get_deterministic_sign_multiplier
     tree, _ = parse_file(repo, "xeofs/linalg/_numpy/_svd.py")
     l, opn, r, pos, neg = sign_rule(find_func(tree, "get_deterministic_sign_multiplier"))
